@@ -428,23 +428,50 @@ def r5(db, rep):
     if len(fm) < 3:
         rep.analysis_broken("expected from_mask for 3 address types, found %d" % len(fm))
     # operator& and last_address_from_mask: element-wise bit operations
-    targets = [(lambda i: "::operator&(const" in i and ("IPv4Address" in i or "IPv6Address" in i or "HWAddress<6" in i) and i.startswith("Tins::"), "&", False),
-               (lambda i: i.startswith("Tins::Internals::last_address_from_mask"), "|", True)]
+    ADDR = lambda i: ("IPv4Address" in i or "IPv6Address" in i or "HWAddress<6" in i) and i.startswith("Tins::")
+    targets = [(lambda i: "::operator&(const" in i and ADDR(i), "&", False),
+               (lambda i: i.startswith("Tins::Internals::last_address_from_mask"), "|", True),
+               # the classes' own | and ~ (used when last_address_from_mask is written `addr | ~mask` on whole addresses)
+               (lambda i: "::operator|(const" in i and ADDR(i), "|", False),
+               (lambda i: "::operator~()" in i and ADDR(i), "~", False)]
     n = 0
     for pred, op, neg in targets:
         for f in fns(db, pred):
             n += 1
             key = f["id"].split("(")[0] + "(" + f["id"].split("(")[1][:30]
-            ops = [x for x in facts.fn_nodes(f) if x["k"] == "BinaryOperator" and x["op"] in ("&", "|", "^", "+", "-")]
-            good = [x for x in ops if x["op"] == op and (not neg or any(y["k"] == "UnaryOperator" and y.get("op") == "~" for y in facts.walk(x["c"][1])))]
-            others = [x for x in ops if x not in good and x["op"] in ("+", "-", "^", "|", "&") and not is_index_arith(f, x)]
+            # built-in operators on bytes / words, or the address classes' own operators on whole addresses (those are
+            # checked as targets of their own); single-assignment locals of any type are read through
+            ops = []
+            for x in facts.fn_nodes(f):
+                if x["k"] == "BinaryOperator" and x["op"] in ("&", "|", "^", "+", "-"):
+                    ops.append((x, x["op"], x["c"][1]))
+                elif x["k"] == "CXXOperatorCallExpr" and x.get("op") in ("&", "|", "^", "+", "-") and len(x["c"]) == 3 and \
+                        ADDR(x.get("callee") or ""):
+                    ops.append((x, x["op"], x["c"][2]))
+            if op == "~":
+                inv = [x for x in facts.fn_nodes(f) if x["k"] == "UnaryOperator" and x.get("op") == "~"]
+                others_ = [x for x, o_, _ in ops if not is_index_arith(f, x)]
+                if inv and not others_:
+                    rep.ok("R5-mask-ops", key, facts.loc(f, inv[0]), "element = ~a")
+                else:
+                    rep.violation("R5-mask-ops", key, facts.loc(f), "operator~ is not the bitwise complement of every element (found %s)" %
+                                  [facts.expr_str(x)[:40] for x in (others_ or [])[:2]])
+                continue
+
+            def has_not(e):
+                e = facts.inline_locals(f, e, all_types=True)
+                return any((y["k"] == "UnaryOperator" and y.get("op") == "~") or
+                           (y["k"] == "CXXOperatorCallExpr" and y.get("op") == "~" and ADDR(y.get("callee") or "")) for y in facts.walk(e))
+            good = [x for x, o_, rhs_ in ops if o_ == op and (not neg or has_not(rhs_))]
+            others = [x for x, o_, rhs_ in ops if x not in good and not is_index_arith(f, x)]
+            ops = [x for x, o_, rhs_ in ops]
             if good and not others:
                 rep.ok("R5-mask-ops", key, facts.loc(f, good[0]), "element = a %s %sm" % (op, "~" if neg else ""))
             else:
                 rep.violation("R5-mask-ops", key, facts.loc(f), "range end is not computed as address %s %smask bit by bit (found %s)" %
                               (op, "NOT " if neg else "", [facts.expr_str(x)[:40] for x in (others or ops)[:2]]))
-    if n < 5:
-        rep.analysis_broken("expected >=5 mask helper functions, found %d" % n)
+    if n < 11:
+        rep.analysis_broken("expected >= 11 mask helper functions (&, |, ~ of three address types, last_address_from_mask), found %d" % n)
 
 
 def is_index_arith(f, x):
@@ -679,60 +706,72 @@ def r9(db, rep):
         rep.analysis_broken("Internals::hw_address_to_string vanished")
         return
     f = fs[0]
-    # nibble locals: `char x = (j >> 4) & 0x0F` / `char x = j & 0x0F`
-    nibs = []
-    for d in facts.fn_nodes(f):
-        if d["k"] == "VarDecl" and d.get("c"):
-            t = facts.expr_str(d["c"][0]).replace(" ", "")
-            if "&15" in t:
-                nibs.append((d, "high" if ">>4" in t else "low"))
-    if len(nibs) != 2 or sorted(x[1] for x in nibs) != ["high", "low"]:
-        rep.analysis_broken("hw_address_to_string: the two nibble extractions were not recognised (%d)" % len(nibs))
+    # the loop body is EXECUTED for every byte value (first element: no separator): the characters appended to the output are
+    # the two hexadecimal digits of the byte, high nibble first - whether they come from arithmetic on the nibble, a lookup
+    # table or a helper
+    loops = [x for x in facts.fn_nodes(f) if x["k"] in ("ForStmt", "WhileStmt")]
+    if len(loops) != 1:
+        rep.analysis_broken("hw_address_to_string: expected one loop over the bytes, found %d" % len(loops))
         return
-    order = []
-    for x in facts.fn_nodes(f):
-        if x["k"] == "CXXOperatorCallExpr" and x.get("cname") == "operator+=" and len(x["c"]) == 3:
-            a = facts.strip_all(x["c"][2])
-            for d, which in nibs:
-                if a.get("var") == d["var"]:
-                    order.append(which)
-    for d, which in nibs:
-        key = "hw_address_to_string:%s-nibble" % which
-        v = d["var"]
-        ifs = []
-        for x in facts.fn_nodes(f):
-            if x["k"] == "IfStmt":
-                real = [y for y in x["c"] if y is not None]
-                if any(y["k"] == "DeclRefExpr" and y.get("var") == v for y in facts.walk(real[0])):
-                    ifs.append((x, real))
-        if len(ifs) != 1 or len(ifs[0][1]) != 3:
-            rep.analysis_broken("%s: digit selection not recognised" % key)
-            continue
-        node, real = ifs[0]
+    loop = loops[0]
+    body = loop["c"][-1]
+    pv = f["params"][0]["var"]
+    idxv = None
+    for x in facts.walk(loop):
+        if x["k"] == "VarDecl" and x.get("c") and facts.cval(x["c"][0]) == 0:
+            idxv = x["var"]
+    for d in facts.fn_nodes(f):
+        if d["k"] == "VarDecl" and d.get("c") and facts.cval(d["c"][0]) == 0 and (facts.tyi(f, d.get("t")) or {}).get("k") == "int" and idxv is None:
+            idxv = d["var"]
 
-        def delta(b):
-            for y in facts.walk(b):
-                if y["k"] == "CompoundAssignOperator" and y.get("op") == "+=" and facts.strip_all(y["c"][0]).get("var") == v:
-                    return ieval.ev(f, y["c"][1], {})
-            raise ieval.Unknown("no += on the nibble")
-        bad = None
-        try:
-            for n_ in range(16):
-                c = ieval.ev(f, real[0], {v: n_})
-                ch = n_ + (delta(real[1]) if c else delta(real[2]))
-                if chr(ch & 0xff).lower() != "0123456789abcdef"[n_]:
-                    bad = "nibble value %d is printed as %r instead of %r: the textual form no longer parses back to the same address" % (
-                        n_, chr(ch & 0xff), "0123456789abcdef"[n_])
-                    break
-        except ieval.Unknown as e:
-            rep.analysis_broken("%s: outside the finite evaluator: %s" % (key, e))
-            continue
-        if bad:
-            rep.violation("R9-hex-printer", key, facts.loc(f, node), bad)
-        elif order[:2] != ["high", "low"]:
-            rep.violation("R9-hex-printer", key, facts.loc(f, node), "the nibbles are appended in the order %s, not high then low" % order[:2])
+    def is_input(e):
+        if e["k"] == "ArraySubscriptExpr":
+            return facts.strip_all(e["c"][0]).get("var") == pv
+        if e["k"] == "UnaryOperator" and e.get("op") == "*":
+            return any(y["k"] == "DeclRefExpr" and y.get("var") == pv for y in facts.walk(e))
+        return False
+    bad = {"high": None, "low": None}
+    try:
+        for bval in range(256):
+            out = []
+
+            def on_effect(kind, node, st):
+                for y in facts.walk(node):
+                    if y["k"] == "CXXOperatorCallExpr" and y.get("cname") == "operator+=" and len(y["c"]) == 3:
+                        a_ = facts.strip_all(y["c"][2])
+                        if a_["k"] == "StringLiteral":
+                            out.extend(ord(ch_) for ch_ in a_.get("str", ""))
+                        else:
+                            out.append(ieval.ev(f, y["c"][2], st) & 0xff)
+                        return
+                    if y["k"] == "CXXMemberCallExpr" and y.get("cname") == "push_back" and len(y["c"]) == 2:
+                        out.append(ieval.ev(f, y["c"][1], st) & 0xff)
+                        return
+            env = {"__input__": bval, "__is_input__": is_input, "__db__": db}
+            if idxv is not None:
+                env[idxv] = 0
+            ieval.trace(f, body, env, on_effect=on_effect)
+            want = "%02x" % bval
+            got = "".join(chr(c_) for c_ in out).lower()
+            if len(out) != 2:
+                raise ieval.Unknown("byte 0x%02x appends %d character(s)" % (bval, len(out)))
+            if got[0] != want[0] and not bad["high"]:
+                bad["high"] = "nibble value %d is printed as %r instead of %r: the textual form no longer parses back to the same address" % (
+                    bval >> 4, got[0], want[0])
+            if got[1] != want[1] and not bad["low"]:
+                bad["low"] = "nibble value %d is printed as %r instead of %r: the textual form no longer parses back to the same address" % (
+                    bval & 15, got[1], want[1])
+            if got == want[::-1] and want[0] != want[1]:
+                bad["high"] = bad["low"] = "the nibbles are appended low then high (byte 0x%s is printed %s)" % (want, got)
+    except ieval.Unknown as e:
+        rep.analysis_broken("hw_address_to_string: outside the finite evaluator: %s" % e)
+        return
+    for which in ("high", "low"):
+        key = "hw_address_to_string:%s-nibble" % which
+        if bad[which]:
+            rep.violation("R9-hex-printer", key, facts.loc(f, loop), bad[which])
         else:
-            rep.ok("R9-hex-printer", key, facts.loc(f, node), "all 16 values map to their digit; appended high nibble first")
+            rep.ok("R9-hex-printer", key, facts.loc(f, loop), "all 256 byte values print their %s digit; appended high nibble first" % which)
 
 
 def r10(db, rep):
@@ -778,5 +817,32 @@ def r10(db, rep):
                 rep.violation("R10-hw-byte-loops", key, facts.loc(f, lp),
                               "the loop visits positions %s of a %d-octet address: %s" % (
                                   visited[:9], N, "it reads / writes past the end" if visited and visited[-1] >= N else "octets are left out of the operation"))
+        # the same sweep written as a bulk operation: memset(buf, v, LEN) / std::fill_n(buf, LEN, v) / std::fill(buf, buf + LEN, v)
+        for x in facts.fn_nodes(f):
+            if x["k"] != "CallExpr" or x.get("cname") not in ("memset", "fill_n", "fill") or len(x["c"]) != 4:
+                continue
+            a = x["c"][1:]
+            try:
+                if x["cname"] == "memset":
+                    ln = ieval.ev(f, a[2], {})
+                elif x["cname"] == "fill_n":
+                    ln = ieval.ev(f, a[1], {})
+                else:
+                    e1 = facts.strip_all(a[1])
+                    if not (e1["k"] == "BinaryOperator" and e1.get("op") == "+" and facts.expr_str(facts.strip_all(e1["c"][0])) == facts.expr_str(facts.strip_all(a[0]))):
+                        continue
+                    ln = ieval.ev(f, e1["c"][1], {})
+            except ieval.Unknown:
+                continue
+            n += 1
+            nm = f["qual"].split("::")[-1]
+            seen[nm] = seen.get(nm, 0) + 1
+            key = "HWAddress<6>::%s:loop#%d" % (nm, seen[nm])
+            if ln == N:
+                rep.ok("R10-hw-byte-loops", key, facts.loc(f, x), "%s over 0..%d" % (x["cname"], N - 1))
+            else:
+                rep.violation("R10-hw-byte-loops", key, facts.loc(f, x),
+                              "%s covers %d octet(s) of a %d-octet address: %s" % (
+                                  x["cname"], ln, N, "it writes past the end" if ln > N else "octets are left out of the operation"))
     if n < 4:
         rep.analysis_broken("only %d byte loops found in HWAddress<6>" % n)
